@@ -58,8 +58,13 @@ def exact(x):
     if isinstance(x, h.Literal):
         return "L:" + x.text
     from decimal import Decimal
+    if isinstance(x, bool):
+        return "B:" + str(x)
     if isinstance(x, (int, float, Decimal)):
-        return str(Fraction(Decimal(str(x))))
+        try:
+            return str(Fraction(Decimal(str(x))))
+        except Exception:
+            return "?" + repr(x)
     return "?" + repr(x)
 
 
